@@ -34,8 +34,8 @@ type DocScript struct {
 	} `json:"runs"`
 	RTTs        []int       `json:"rtts"`
 	FirstTTL    int         `json:"first_ttl"` // TTL of the first hop of every run (default 1: a library caller may start higher)
-	DPort       *int        `json:"dport"`   // destination port of every run (default 33434; 0: ICMP has no ports)
-	RTTDiv      int         `json:"rtt_div"` // samples are rtts[i] / rtt_div milliseconds (0/1: whole milliseconds): sub-microsecond parts
+	DPort       *int        `json:"dport"`     // destination port of every run (default 33434; 0: ICMP has no ports)
+	RTTDiv      int         `json:"rtt_div"`   // samples are rtts[i] / rtt_div milliseconds (0/1: whole milliseconds): sub-microsecond parts
 	Enrich      bool        `json:"enrich"`
 	SkipPrivate bool        `json:"skip_private"`
 	DNS         wire.StrMap `json:"dns"`       // address string -> behaviour (see dnsAnswer); "a;b": first call a, later calls b; "+<ms>:x": x after a delay
